@@ -4,20 +4,28 @@
 //   heap-owning element type: live-instance counter after the call == before
 //   flavour R: ASan/UBSan; flavour T (binary c06t): no data race.
 // Targets: mergesort (n <= 5000, threads <= 20, oversampling 1/2/10) and mergesort_scale (rarer, cost-bounded
-// scale classes: threads up to 100, n up to 10^6, oversampling 1..1000); both end in check_case().
+// scale classes: threads up to 100, n up to 10^6, oversampling 1..1000), mergesort_iters (other iterator / element types,
+// owning comparator) and mergesort_forms (every public call form: entry point, defaulted arguments, comparator form and
+// value category, size_t thread counts, unrelated tuning globals); all end in check_case().
 #include "C06_common.hpp"
 
 #include <algorithm>
 #include <cstdint>
 #include <string>
+#include <thread>
 #include <tlx/algorithm/parallel_multiway_merge.hpp>
 
 namespace c06 {
 void reset_globals(const Params& p) {
-    tlx::parallel_multiway_merge_force_sequential = false;
-    tlx::parallel_multiway_merge_force_parallel = false;
-    tlx::parallel_multiway_merge_minimal_k = 2;
-    tlx::parallel_multiway_merge_minimal_n = 1000;
+    // every public tuning global of tlx/algorithm/parallel_multiway_merge.hpp is (re)set for every case. Only the
+    // oversampling factor is documented to matter to parallel_mergesort (sampling splitting); the other four are
+    // switches of the parallel_multiway_merge() frontends, which parallel_mergesort does not go through: whatever
+    // they hold (p.knobs, target mergesort_forms; 0 = the library defaults) the same oracles must hold.
+    static const size_t MIN_K[4] = {2, 0, 1000000, (size_t)-1}, MIN_N[4] = {1000, 0, 1, (size_t)-1};
+    tlx::parallel_multiway_merge_force_sequential = (p.knobs & 1) != 0;
+    tlx::parallel_multiway_merge_force_parallel = (p.knobs & 2) != 0;
+    tlx::parallel_multiway_merge_minimal_k = MIN_K[(p.knobs >> 2) & 3];
+    tlx::parallel_multiway_merge_minimal_n = MIN_N[(p.knobs >> 4) & 3];
     tlx::parallel_multiway_merge_oversampling = p.oversampling;
 }
 } // namespace c06
@@ -36,8 +44,13 @@ uint64_t splitmix(uint64_t& s) {
 
 const char* const TYPE_NAME[] = {"int", "key+tag", "heap-record",
                                  // target mergesort_iters (all with a comparator owning state)
-                                 "deque<key+tag>", "reverse_iterator<vector<key+tag>>", "deque<string-record>", "pointer-range<string-record>"};
-inline bool lifetime_checked(int ty) { return ty == 2 || ty == 5 || ty == 6; }
+                                 "deque<key+tag>", "reverse_iterator<vector<key+tag>>", "deque<string-record>", "pointer-range<string-record>",
+                                 // target mergesort_forms only: further comparator forms
+                                 "heap-record/std::less", "pointer-range<key+tag>/std::less", "vector<key+tag>/function-pointer",
+                                 "vector<key+tag>/lambda", "deque<key+tag>/std::greater"};
+const int N_TYPES = 12;
+inline bool lifetime_checked(int ty) { return ty == 2 || ty == 5 || ty == 6 || ty == 7; }
+inline bool less_only(int ty) { return ty == 7 || ty == 8; } // std::less: ascending only; these have the 2-argument call form
 const char* const VCLASS_NAME[] = {"all-equal", "2-4-distinct", "wide", "medium-dups", "sawtooth", "blocks"};
 const char* const ARR_NAME[] = {"as-drawn", "sorted", "reversed"};
 
@@ -65,7 +78,7 @@ struct ScaleInfo {
 
 //! classification, reference, tlx call and oracles for one generated case
 void check_case(int ty, const Params& p, const std::vector<Item>& in, const char* vclass_name, const char* arr_name, bool from_prng,
-                const ScaleInfo* scale) {
+                const ScaleInfo* scale, bool forms = false) {
     const size_t n = in.size();
     // ---- classification -------------------------------------------------------------------
     size_t t_eff = std::min<size_t>(p.threads, n); // tlx clamps to one element per thread
@@ -107,9 +120,11 @@ void check_case(int ty, const Params& p, const std::vector<Item>& in, const char
     else if (p.sampling)
         pbt::label(p.oversampling == 1 ? "oversampling=1" : p.oversampling < 10 ? "oversampling=2..9" : p.oversampling < 100 ? "oversampling=10..99"
                                                                                                      : "oversampling=100..1000");
-    pbt::label(vclass_name);
-    pbt::label(arr_name);
-    pbt::label(from_prng ? "values:prng" : "values:bytes");
+    if (!forms) { // (the target mergesort_forms spends its label slots on the call forms)
+        pbt::label(vclass_name);
+        pbt::label(arr_name);
+        pbt::label(from_prng ? "values:prng" : "values:bytes");
+    }
     if (n == 0) pbt::label("n=0");
     else if (n == 1) pbt::label("n=1");
     if (n >= 2 && n < p.threads) pbt::label("2<=n<threads");
@@ -146,7 +161,8 @@ void check_case(int ty, const Params& p, const std::vector<Item>& in, const char
     }
     if (dup_across) pbt::label("dup-across-slices");
     if (lifetime_checked(ty) && n >= 2) pbt::label("lifetime-checked");
-    if (ty >= 3) {
+    if (ty >= 3 && ty <= 6 && forms) pbt::label("cmp_owning_state");
+    if (ty >= 3 && ty <= 6 && !forms) {
         pbt::label("cmp_owning_state");
         const size_t blk = ty >= 5 ? 512 / 40 : 512 / 8; // elements per 512-byte deque block (sizeof(StrRec) == 40, sizeof(KT) == 8)
         if (ty == 3 || ty == 5) {
@@ -158,16 +174,46 @@ void check_case(int ty, const Params& p, const std::vector<Item>& in, const char
         if ((p.layout / 3) % 3 != 0) pbt::label("guards_behind_range");
     }
     bool nt = t_eff >= 2 && n >= 2 * t_eff && dup_across;
-    if (nt) {
-        pbt::nontrivial();
+    if (nt) pbt::nontrivial();
+    if (nt && !forms) {
         pbt::label(p.stable ? (p.sampling ? "NT:stable+sampling" : "NT:stable+exact")
                             : (p.sampling ? "NT:unstable+sampling" : "NT:unstable+exact"));
+    }
+
+    std::string form_text;
+    if (forms) {
+        static const char* const FORM[2][2][4] = {
+            {{"form:parallel_mergesort(b,e)", "form:parallel_mergesort(b,e,cmp)", "form:parallel_mergesort(b,e,cmp,t)", "form:parallel_mergesort(b,e,cmp,t,a)"},
+             {"form:stable_parallel_mergesort(b,e)", "form:stable_parallel_mergesort(b,e,cmp)", "form:stable_parallel_mergesort(b,e,cmp,t)",
+              "form:stable_parallel_mergesort(b,e,cmp,t,a)"}},
+            {{"form:?", "form:base<false>(b,e,cmp)", "form:base<false>(b,e,cmp,t)", "form:base<false>(b,e,cmp,t,a)"},
+             {"form:?", "form:base<true>(b,e,cmp)", "form:base<true>(b,e,cmp,t)", "form:base<true>(b,e,cmp,t,a)"}}};
+        static const char* const CAT[4] = {"cmp-arg:non-const-lvalue", "cmp-arg:const-lvalue", "cmp-arg:prvalue", "cmp-arg:xvalue"};
+        const char* f = FORM[p.entry][p.stable ? 1 : 0][p.nargs - 2];
+        pbt::label(f);
+        form_text = std::string(" ") + f;
+        if (p.nargs >= 3) pbt::label(CAT[p.cmp_cat]), form_text += std::string(" ") + CAT[p.cmp_cat];
+        if (p.nargs == 5 && !p.sampling) pbt::label(p.mwmsa_default_spelled ? "mwmsa=MWMSA_DEFAULT(spelled)" : "mwmsa=MWMSA_EXACT(spelled)");
+        if (p.nargs < 5) pbt::label("mwmsa-defaulted");
+        if (p.nargs < 4) pbt::label("num_threads-defaulted(hardware_concurrency)");
+        if (p.nargs == 2) pbt::label("comparator-defaulted(std::less)");
+        if (p.threads_arg) {
+            pbt::label(p.threads_arg == (size_t)-1 ? "num_threads=SIZE_MAX" : p.threads_arg >= ((size_t)1 << 32) ? "num_threads>=2^32" : p.threads_arg > 100 ? "num_threads=101..2^32-1" : "num_threads<=100(size_t)");
+            if (n >= 2 && p.threads_arg > 1000 * n) pbt::label("num_threads>1000*n,n>=2");
+            form_text += " num_threads=" + std::to_string(p.threads_arg);
+        }
+        if (p.knobs & 1) pbt::label("knob:force_sequential");
+        if (p.knobs & 2) pbt::label("knob:force_parallel");
+        if ((p.knobs >> 2) & 3) pbt::label("knob:minimal_k!=2");
+        if ((p.knobs >> 4) & 3) pbt::label("knob:minimal_n!=1000");
+        if (p.knobs == 0) pbt::label("knobs:library-defaults");
+        if (p.knobs) form_text += " knobs=" + std::to_string(p.knobs);
     }
 
     PBT_LOG("type=" << TYPE_NAME[ty] << (p.stable ? " stable_parallel_mergesort" : " parallel_mergesort") << " n=" << n
                     << " threads=" << p.threads << " (effective " << t_eff << ") splitting=" << (p.sampling ? "sampling" : "exact")
                     << " oversampling=" << p.oversampling << " cmp=" << (p.greater ? "greater" : "less") << " values="
-                    << vclass_name << "/" << arr_name << (from_prng ? "/prng" : "/bytes") << "\n");
+                    << vclass_name << "/" << arr_name << (from_prng ? "/prng" : "/bytes") << form_text << "\n");
     if (pbt::verbose()) {
         if (n <= 80) PBT_LOG("input key#tag: " << show_items(in) << "\n");
         else PBT_LOG("input key#tag: " << show_items(in, 0, 40) << " ... " << show_items(in, n - 20, n) << "\n");
@@ -189,7 +235,12 @@ void check_case(int ty, const Params& p, const std::vector<Item>& in, const char
     case 3: lt = c06::sort_deque_kt(p, out); break;
     case 4: lt = c06::sort_rev_kt(p, out); break;
     case 5: lt = c06::sort_deque_str(p, out); break;
-    default: lt = c06::sort_ptr_str(p, out); break;
+    case 6: lt = c06::sort_ptr_str(p, out); break;
+    case 7: lt = c06::sort_rec_less(p, out); break;
+    case 8: lt = c06::sort_ptr_kl_less(p, out); break;
+    case 9: lt = c06::sort_vec_kl_fnptr(p, out); break;
+    case 10: lt = c06::sort_vec_kl_lambda(p, out); break;
+    default: lt = c06::sort_deque_kl_greater(p, out); break;
     }
     if (pbt::verbose()) {
         if (n <= 80) PBT_LOG("output key#tag: " << show_items(out) << "\n");
@@ -202,7 +253,7 @@ void check_case(int ty, const Params& p, const std::vector<Item>& in, const char
     const std::string what = std::string(p.stable ? "stable_parallel_mergesort" : "parallel_mergesort") + "<" + TYPE_NAME[ty] +
                              "> n=" + std::to_string(n) + " threads=" + std::to_string(p.threads) +
                              (p.sampling ? " sampling(oversampling=" + std::to_string(p.oversampling) + ")" : std::string(" exact")) +
-                             (p.greater ? " greater" : " less");
+                             (p.greater ? " greater" : " less") + form_text;
     PBT_CHECK(out.size() == n, "C06/size", what << ": size changed");
     // sorted
     for (size_t i = 1; i < n; ++i)
@@ -272,7 +323,13 @@ void check_case(int ty, const Params& p, const std::vector<Item>& in, const char
 
 namespace {
 //! the generator of the targets mergesort / mergesort_iters after the element-type selector (draw order frozen)
-void small_case(pbt::Source& src, int ty, unsigned layout) {
+//! call-form selectors of the target mergesort_forms (drawn before small_case; applied after its own selector draws)
+struct FormSel {
+    unsigned entry, nargs, cmp_cat, knobs, huge; // huge: 0 = keep the drawn thread count, else 1 + index into the num_threads table
+    bool spelled;
+};
+
+void small_case(pbt::Source& src, int ty, unsigned layout, const FormSel* fs = nullptr) {
     unsigned cfg = src.u8();
     Params p;
     p.layout = layout;
@@ -296,6 +353,29 @@ void small_case(pbt::Source& src, int ty, unsigned layout) {
         break;
     }
     default: n = (size_t)src.range(401, 5000); break;
+    }
+    if (fs) {
+        // make the case say what the chosen call form means (defaulted arguments have documented values)
+        p.entry = fs->entry, p.nargs = fs->nargs, p.cmp_cat = fs->cmp_cat, p.knobs = fs->knobs, p.mwmsa_default_spelled = fs->spelled;
+        if (less_only(ty)) p.greater = false; // std::less
+        else if (p.nargs == 2) p.nargs = 3;   // only std::less can be defaulted
+        if (less_only(ty) && p.nargs == 3 && (fs->cmp_cat & 1)) p.nargs = 2; // (more of the 2-argument form)
+        if (ty == 11) p.greater = true;       // std::greater
+        if (p.entry == 1 && p.nargs == 2) p.entry = 0; // parallel_mergesort_base has no defaulted comparator
+        const unsigned hw = std::thread::hardware_concurrency();
+        if (p.nargs < 4 && hw == 0) p.nargs = 4; // (a platform that cannot tell: the defaulted count would be 0, outside the statement)
+        if (p.nargs < 5) p.sampling = false;     // MWMSA_DEFAULT == MWMSA_EXACT
+        if (p.nargs < 4) p.threads = hw;
+        else if (fs->huge) {
+            // num_threads far above n: tlx documents "at least one element per thread" (clamps to n), so n real threads run
+            if (n > 48) n %= 49;
+            const size_t one = 1;
+            const size_t T[] = {n + 1,          2 * n + 3,       101,           1000,           65536,           (one << 31) - 1, one << 31,
+                                (one << 32) - 1, one << 32,       (one << 32) + 1, (one << 32) + n, one << 48,       one << 63,       (size_t)-2,
+                                (size_t)-1,      (one << 32) * 3, (one << 33) + 2, 4097};
+            p.threads_arg = T[(fs->huge - 1) % (sizeof T / sizeof T[0])];
+            p.threads = p.threads_arg > 0xFFFFFFFFull ? 0xFFFFFFFFu : (unsigned)p.threads_arg;
+        }
     }
     int vclass = (int)src.weighted({1, 3, 3, 3, 2});
     int arr = (int)src.weighted({4, 1, 1});
@@ -332,7 +412,7 @@ void small_case(pbt::Source& src, int ty, unsigned layout) {
         for (size_t i = 0; i < n; ++i) in[i].tag = (int)i; // tag = position in the input
     }
 
-    check_case(ty, p, in, VCLASS_NAME[vclass], ARR_NAME[arr], from_prng, nullptr);
+    check_case(ty, p, in, VCLASS_NAME[vclass], ARR_NAME[arr], from_prng, nullptr, fs != nullptr);
 }
 } // namespace
 
@@ -352,6 +432,38 @@ PBT_PROPERTY(mergesort_iters) {
     int ty = 3 + (int)src.weighted({3, 2, 3, 2}); // deque<key+tag> | reverse_iterator | deque<string-record> | pointer-range<string-record>
     unsigned layout = (unsigned)src.bits(2);
     small_case(src, ty, layout);
+}
+
+// CALL FORMS (own target: the byte mappings of the other targets stay valid). The statement is about the public sort,
+// however it is spelled. Same generator and oracles as `mergesort` / `mergesort_iters`, all seven range / element types
+// of those targets plus five further comparator forms (std::less defaulted or spelled, pointer to function, lambda,
+// std::greater; a plain-pointer range of a trivial element), and for each case one of the public spellings:
+//   entry point   parallel_mergesort | stable_parallel_mergesort | parallel_mergesort_base<false> | <true> (the "main call")
+//   arguments     (b,e) [std::less types only] | (b,e,cmp) | (b,e,cmp,num_threads) | (b,e,cmp,num_threads,mwmsa); the
+//                 defaulted ones mean std::less<value_type>, std::thread::hardware_concurrency() threads, MWMSA_DEFAULT
+//                 (documented == exact splitting); MWMSA_DEFAULT is also passed explicitly
+//   comparator    passed as non-const lvalue | const lvalue | prvalue | xvalue (for the owning comparator of the iterator
+//                 types the caller's object must be intact afterwards: C06/comparator-lost)
+//   num_threads   1..20 as in `mergesort`, or far above n as a size_t: n+1 .. 2^31, 2^32, 2^32+1, 2^48, 2^63, SIZE_MAX
+//                 (n <= 48 then: n real threads run)
+//   the four parallel_multiway_merge_* switches that are documented for the parallel_multiway_merge() frontends only
+//                 (force_sequential, force_parallel, minimal_k, minimal_n) hold arbitrary values (reset for every case)
+// Observed exactly as everywhere: sorted, exact permutation, element-for-element std::stable_sort for the stable entry
+// points, guards around sub-ranges, live-instance counter of the owning element types.
+PBT_PROPERTY(mergesort_forms) {
+    // ---- selectors first -------------------------------------------------------------------
+    int ty = (int)src.weighted({2, 2, 3, 1, 1, 1, 2, 3, 3, 2, 2, 2}); // see TYPE_NAME
+    unsigned layout = (unsigned)src.bits(2);
+    FormSel fs;
+    fs.entry = (unsigned)src.weighted({3, 2});
+    static const unsigned NARGS[4] = {5, 4, 3, 2};
+    fs.nargs = NARGS[src.weighted({3, 3, 2, 2})];
+    fs.cmp_cat = (unsigned)src.range(0, 3);
+    fs.spelled = src.boolean();
+    fs.knobs = src.chance(160) ? (unsigned)src.range(0, 63) : 0;
+    fs.huge = src.chance(80) ? 1 + (unsigned)src.range(0, 17) : 0;
+    static_assert(sizeof(TYPE_NAME) / sizeof(TYPE_NAME[0]) == N_TYPES, "type table");
+    small_case(src, ty, layout, &fs);
 }
 
 // Scale classes (own target, so that the choice-byte mapping of `mergesort` and its stored witnesses stay valid).
